@@ -110,18 +110,43 @@ def rule_ag_stage(cx, rep, port):
     ok = isinstance(t, ast.Compare) and isinstance(t.ops[0], ast.Eq) and isinstance(t.comparators[0], ast.Constant) and t.comparators[0].value == 1
     rep.decide(ok, 'stage dispatch', t, 'first arm runs in stage 1', 'stage dispatch `{}` is not `aggregation_stage == 1`'.format(node_text(t)))
     s1, s2 = iff.body, iff.orelse
+    from ..snippet import inline_single_defs
+    scope = fd
+    key_name = fd.args.args[-2].arg
+    # stage 1 may live in a helper that the arm calls: the helper's body is the arm
+    if len(s1) == 1 and isinstance(s1[0], ast.Expr) and isinstance(s1[0].value, ast.Call) and isinstance(s1[0].value.func, ast.Name) and p.func(mod, s1[0].value.func.id, required=False) is not None:
+        call = s1[0].value
+        scope = p.func(mod, call.func.id)
+        hp = [a.arg for a in scope.args.args]
+        for prm, a in zip(hp, call.args):
+            if is_name(a, key_name):
+                key_name = prm
+                break
+        s1 = scope.body
+
+    def res(e):
+        """expression with single-definition aliases of the scope replaced by what they stand for (for matching only)"""
+        return inline_single_defs(e, scope, depth=3, any_value=True)
     # stage 1
-    wrap = [n for n in s1 if isinstance(n, ast.Assign) and (dotted(n.targets[0]) or '').endswith('.writer') and isinstance(n.value, ast.Call) and dotted(n.value.func) == 'AggregateWriter']
-    rep.decide(len(wrap) == 1, 'stage 1 writer', wrap[0] if wrap else iff, 'AggregateWriter is installed once, in stage 1', 'AggregateWriter is not installed exactly once in stage 1')
+    ctor = [n for s_ in s1 for n in ast.walk(s_) if isinstance(n, ast.Call) and dotted(n.func) == 'AggregateWriter']
+    wrap = [n for n in s1 if isinstance(n, ast.Assign) and (dotted(n.targets[0]) or '').endswith('.writer') and isinstance(res(n.value), ast.Call) and dotted(res(n.value).func) == 'AggregateWriter']
+    rep.decide(len(wrap) == 1 and len(ctor) == 1, 'stage 1 writer', wrap[0] if wrap else iff, 'AggregateWriter is installed once, in stage 1', 'AggregateWriter is not installed exactly once in stage 1')
+    if ctor:
+        cst = ctor[0]
+        while not isinstance(cst, ast.stmt):
+            cst = cst.parent
+        wrap_pos = cst.lineno
+    else:
+        wrap_pos = None
     guard = [n for n in s1 if isinstance(n, ast.If) and isinstance(n.body[-1], ast.Raise) and 'writer' in node_text(n.test)]
-    okg = len(guard) == 1 and 'RbqlParsingError' in node_text(guard[0].body[-1]) and (not wrap or guard[0].lineno < wrap[0].lineno)
+    okg = len(guard) == 1 and 'RbqlParsingError' in node_text(guard[0].body[-1]) and (wrap_pos is None or guard[0].lineno < wrap_pos)
     rep.decide(okg, 'stage 1 guard', guard[0] if guard else iff, 'sorting/dedup writers are rejected with a parsing error before the AggregateWriter is installed', 'ORDER BY / DISTINCT in an aggregate query is not rejected with a parsing error before aggregation starts')
     loops = [n for n in s1 if isinstance(n, (ast.For, ast.While))]
     if len(loops) != 1:
         rep.undecided('stage 1 loop', iff, 'column loop not recognised')
     else:
         lp = loops[0]
-        apps = [c for c in ast.walk(lp) if isinstance(c, ast.Call) and isinstance(c.func, ast.Attribute) and c.func.attr in ('append', 'push') and (dotted(c.func.value) or '').endswith('writer.aggregators')]
+        apps = [res(c) for c in ast.walk(lp) if isinstance(c, ast.Call) and isinstance(c.func, ast.Attribute) and c.func.attr in ('append', 'push') and node_text(res(c.func.value), 300).endswith('.aggregators')]
         tok_arm = [c for c in apps if 'functional_aggregators' in node_text(c)]
         ver_arm = [c for c in apps if 'ConstGroupVerifier' in node_text(c)]
         rep.decide(len(apps) == 2 and len(tok_arm) == 1 and len(ver_arm) == 1, 'stage 1 columns', lp, 'every output column gets either its registered aggregator or a constant-group verifier', 'stage 1 does not append exactly one aggregator or verifier per output column')
@@ -131,12 +156,17 @@ def rule_ag_stage(cx, rep, port):
         if ver_arm:
             a = ver_arm[0].args[0]
             arg = a.args[0] if isinstance(a, ast.Call) and a.args else None
-            ok_v = isinstance(arg, ast.Call) and dotted(arg.func) == 'len' and (dotted(arg.args[0]) or '').endswith('writer.aggregators')
+            ok_v = isinstance(arg, ast.Call) and dotted(arg.func) == 'len' and node_text(res(arg.args[0]), 300).endswith('.aggregators')
             rep.decide(ok_v, 'stage 1 verifier index', ver_arm[0], 'verifier knows its output column index', 'the constant-group verifier is created with the wrong column index')
         incs = [c for c in ast.walk(lp) if isinstance(c, ast.Call) and isinstance(c.func, ast.Attribute) and c.func.attr == 'increment']
-        ok_inc = len(incs) == 2 and all(is_name(c.args[0], fd.args.args[-2].arg) for c in incs)
-        vals = sorted(node_text(c.args[1]) for c in incs) if len(incs) == 2 else []
-        rep.decide(ok_inc and vals == ['trans_value', 'trans_value.value'], 'stage 1 first record', incs[0] if incs else lp, 'the first record is accumulated too (token value / plain value)', 'the first record of the query is not fed to the aggregators in stage 1 (or with the wrong value)')
+        ok_inc = len(incs) == 2 and all(is_name(c.args[0], key_name) for c in incs)
+        vals = sorted(node_text(res(c.args[1])) for c in incs) if len(incs) == 2 else []
+        col_value = None
+        for c in incs:
+            t_ = node_text(res(c.args[1]))
+            if t_.endswith('.value') and (col_value is None):
+                col_value = t_[:-len('.value')]
+        rep.decide(ok_inc and col_value is not None and vals == sorted([col_value, col_value + '.value']), 'stage 1 first record', incs[0] if incs else lp, 'the first record is accumulated too (token value / plain value)', 'the first record of the query is not fed to the aggregators in stage 1 (or with the wrong value)')
         is_tok = [n for n in ast.walk(lp) if isinstance(n, ast.If) and 'RBQLAggregationToken' in node_text(n.test)]
         rep.decide(len(is_tok) == 1, 'stage 1 token test', is_tok[0] if is_tok else lp, 'columns are classified by isinstance(value, RBQLAggregationToken)', 'columns are not classified by "is an aggregation token"')
     chk = [n for n in s1 if isinstance(n, ast.If) and 'num_aggregators_found' in node_text(n.test)]
@@ -150,7 +180,23 @@ def rule_ag_stage(cx, rep, port):
     if len(incs2) == 1:
         c = incs2[0]
         recv = c.func.value
-        ok2 = isinstance(recv, ast.Subscript) and (dotted(recv.value) or '').endswith('writer.aggregators') and is_name(recv.slice, 'i') and is_name(c.args[0], fd.args.args[-2].arg) and node_text(c.args[1]) in ('trans_value', 'transparent_values[i]')
+        vparam = fd.args.args[-1].arg
+        lp2 = c
+        while lp2 is not None and not isinstance(lp2, (ast.For, ast.While)):
+            lp2 = getattr(lp2, 'parent', None)
+
+        def element_of(e):
+            """(sequence name, index name) when e denotes sequence[index] in the enclosing loop"""
+            if isinstance(e, ast.Subscript) and isinstance(e.value, ast.Name) and isinstance(e.slice, ast.Name):
+                return e.value.id, e.slice.id
+            if isinstance(e, ast.Name) and isinstance(lp2, ast.For):
+                if isinstance(lp2.target, ast.Tuple) and len(lp2.target.elts) == 2 and is_name(lp2.target.elts[1], e.id) and isinstance(lp2.iter, ast.Call) and dotted(lp2.iter.func) == 'enumerate' and len(lp2.iter.args) == 1 and isinstance(lp2.iter.args[0], ast.Name) and isinstance(lp2.target.elts[0], ast.Name):
+                    return lp2.iter.args[0].id, lp2.target.elts[0].id
+                ds = [n for n in lp2.body if isinstance(n, ast.Assign) and is_name(n.targets[0], e.id)]
+                if len(ds) == 1:
+                    return element_of(ds[0].value)
+            return None
+        ok2 = isinstance(recv, ast.Subscript) and (dotted(recv.value) or '').endswith('.aggregators') and isinstance(recv.slice, ast.Name) and is_name(c.args[0], fd.args.args[-2].arg) and element_of(c.args[1]) == (vparam, recv.slice.id)
     rep.decide(ok2, 'stage 2', incs2[0] if incs2 else iff, 'aggregators[i].increment(key, value i)', 'stage 2 does not increment aggregator i with output value i under the group key')
     # key set
     adds = [n for n in fd.body if isinstance(n, ast.Expr) and isinstance(n.value, ast.Call) and isinstance(n.value.func, ast.Attribute) and n.value.func.attr == 'add' and (dotted(n.value.func.value) or '').endswith('aggregation_keys')]
@@ -250,10 +296,22 @@ def rule_ag_mad(cx, rep, port='py'):
         starred = any(isinstance(a, ast.Starred) for a in bc.args)
         rep.decide(starred, name + ' builtin call', bc, 'the builtin receives all positional arguments', 'the builtin is not called with the original arguments')
         if name != 'mad_sum':
-            sa = [n for n in walk_no_nested(fd) if isinstance(n, ast.Assign) and is_name(n.targets[0], 'single_arg')]
-            oks = len(sa) == 1 and 'len(args) == 1' in node_text(sa[0].value) and 'not kwargs' in node_text(sa[0].value)
-            rep.decide(oks, name + ' single argument', sa[0] if sa else fd, 'aggregate only for exactly one positional argument and no keywords', 'the "single argument" test changed: several arguments or keyword arguments would be treated as an aggregate')
-            types = {dotted(c.args[1]) for c in walk_no_nested(fd) if isinstance(c, ast.Call) and dotted(c.func) == 'isinstance' and len(c.args) == 2}
+            # type tests of the dispatcher itself and of the helper predicates it calls (nested in compile_and_run or at module level)
+            scopes = [fd]
+            for c in calls:
+                h = [s_ for s_ in car.body if isinstance(s_, ast.FunctionDef) and s_.name == c.func.id and s_ is not fd] or ([p.func('rbql_engine', c.func.id, required=False)] if p.func('rbql_engine', c.func.id, required=False) is not None else [])
+                scopes.extend(h)
+            types = set()
+            for sc_ in scopes:
+                for c in walk_no_nested(sc_):
+                    if isinstance(c, ast.Call) and dotted(c.func) == 'isinstance' and len(c.args) == 2:
+                        t_ = c.args[1]
+                        types |= {dotted(x) for x in (t_.elts if isinstance(t_, ast.Tuple) else [t_])}
+            va, kw = (fd.args.vararg.arg if fd.args.vararg else 'args'), (fd.args.kwarg.arg if fd.args.kwarg else 'kwargs')
+            txt = ' '.join(node_text(sc_, 4000).replace(' ', '') for sc_ in scopes)
+            one_pos = 'len({})==1'.format(va) in txt or any('len({})==1'.format(a.arg) in txt for sc_ in scopes[1:] for a in sc_.args.args)
+            no_kw = 'not{}'.format(kw) in txt or 'len({})==0'.format(kw) in txt or any('not{}'.format(a.arg) in txt for sc_ in scopes[1:] for a in sc_.args.args)
+            rep.decide(one_pos and no_kw, name + ' single argument', fd, 'aggregate only for exactly one positional argument and no keywords', 'the "single argument" test changed: several arguments or keyword arguments would be treated as an aggregate')
             rep.decide({'str', 'int', 'float'} <= types, name + ' scalar types', fd, 'str/int/float single arguments are aggregated', 'scalar type tests are {} (need str, int, float)'.format(sorted(t for t in types if t)))
         # TypeError fallback: only for a single argument, otherwise re-raise
         hs = [h for h in ast.walk(fd) if isinstance(h, ast.ExceptHandler)]
